@@ -2,6 +2,7 @@ package sim
 
 import (
 	"fmt"
+	"google.golang.org/grpc/metadata"
 	"io"
 	"strings"
 	"time"
@@ -61,6 +62,11 @@ func runCancel(w *World, rs *RunSpec) {
 	case 0:
 	case 1: // handler blocked waiting for its context
 		p0.Handler = []Op{{Kind: OpRecv}, {Kind: OpAwaitCtx}, {Kind: OpReturn}}
+		if (len(p0.ReqSizes)+len(p0.RespSizes))%2 == 0 {
+			// a handler that has not noticed yet that its RPC is over and
+			// sends headers: nothing may reach the wire any more
+			p0.Handler = []Op{{Kind: OpRecv}, {Kind: OpAwaitCtx}, {Kind: OpSendHeader, MD: metadata.Pairs("late-header", "after-the-end")}, {Kind: OpReturn}}
+		}
 		p0.HandlerSend = nil
 		// if the cancellation never comes (baseline, or the workload is shorter
 		// than k frames) a deadline ends this RPC
